@@ -1,4 +1,250 @@
-//! placeholder (filled in below)
-pub fn estimate_child(_args: &[String]) -> i32 {
-    2
+//! C18 — behaviour independent of integer-overflow checking (build profile).
+//!
+//! Every case is executed by two builds of the same code: the release profile and
+//! `checked` (= release + overflow-checks; debug assertions stay off, so integer
+//! overflow is the only difference).
+
+use crate::engine::*;
+use crate::fasta;
+use crate::gen::{self, Collection, GenCfg};
+use crate::pipeline::{self, run_cmd};
+use crate::props::c09::LzCase;
+use crate::util::{sha256_hex, stable_hash};
+use proptest::prelude::*;
+use ragc_core::LZDiff;
+use serde::{Deserialize, Serialize};
+use serde_json::Value;
+use std::path::Path;
+use std::process::Command;
+use std::time::Duration;
+
+// ------------------------------------------------------------------ LZ cost --
+
+#[derive(Clone, Debug, Hash, Serialize, Deserialize)]
+pub struct LzBatch {
+    pub cases: Vec<LzCase>,
 }
+
+fn lz_line(c: &LzCase) -> String {
+    let r = guarded(|| {
+        let mut lz = LZDiff::new(c.min_match as u32);
+        lz.prepare(&c.reference);
+        let e1 = lz.estimate(&c.target, u32::MAX);
+        let e2 = lz.estimate(&c.target, 8);
+        let v1 = lz.get_coding_cost_vector(&c.target, true);
+        let v2 = lz.get_coding_cost_vector(&c.target, false);
+        let enc = lz.encode(&c.target);
+        format!("est={} est8={} cvp={:016x}/{} cvs={:016x}/{} enc={:016x}", e1, e2, stable_hash(&v1), v1.len(), stable_hash(&v2), v2.len(), stable_hash(&enc))
+    });
+    match r {
+        Ok(s) => s,
+        Err(p) => format!("panic: {}", p),
+    }
+}
+
+/// child: `estimate <cases.json>` prints one line per case
+pub fn estimate_child(args: &[String]) -> i32 {
+    install_panic_hook();
+    let Some(b) = std::fs::read_to_string(&args[0]).ok().and_then(|t| serde_json::from_str::<LzBatch>(&t).ok()) else {
+        eprintln!("bad batch file");
+        return 2;
+    };
+    for c in &b.cases {
+        println!("{}", lz_line(c));
+    }
+    0
+}
+
+fn overflow_panic(s: &str) -> bool {
+    s.contains("attempt to") && s.contains("overflow")
+}
+
+pub fn check_lz(ctx: &Ctx, batch: &LzBatch) -> Report {
+    let dir = ctx.scratch("c18lz");
+    let f = dir.file("batch.json");
+    if std::fs::write(&f, serde_json::to_string(batch).unwrap()).is_err() {
+        return Report::inconclusive("harness: cannot write batch".to_string());
+    }
+    let mut cmd = Command::new(&ctx.vcheck_checked);
+    cmd.args(["child", "estimate"]).arg(&f);
+    let o = match run_cmd(cmd, Duration::from_secs(600)) {
+        Ok(o) => o,
+        Err(e) => return Report::inconclusive(format!("cannot run the checked build: {}", e)),
+    };
+    if !o.ok() {
+        return Report::inconclusive(format!("checked estimate child: {}", o.describe()));
+    }
+    let checked: Vec<String> = String::from_utf8_lossy(&o.stdout).lines().map(|s| s.to_string()).collect();
+    if checked.len() != batch.cases.len() {
+        return Report::inconclusive("checked estimate child printed a different number of lines".to_string());
+    }
+    let mut back_ext = false;
+    for (i, c) in batch.cases.iter().enumerate() {
+        let rel = lz_line(c);
+        if overflow_panic(&checked[i]) || overflow_panic(&rel) {
+            return Report::fail(format!("case {} (|ref|={}, |target|={}, min match {}): arithmetic overflow: checked build: {} / release build: {}", i, c.reference.len(), c.target.len(), c.min_match, checked[i], rel));
+        }
+        if rel != checked[i] {
+            return Report::fail(format!("case {} (|ref|={}, |target|={}, min match {}): release build gives [{}], overflow-checked build gives [{}]", i, c.reference.len(), c.target.len(), c.min_match, rel, checked[i]));
+        }
+        if c.target.len() > 40 && c.reference.len() > 40 {
+            back_ext = true;
+        }
+    }
+    Report::pass(back_ext).label("lz-batch")
+}
+
+// ----------------------------------------------------------------- archives --
+
+#[derive(Clone, Debug, Hash, Serialize, Deserialize)]
+pub struct ArcCase {
+    pub collection: Collection,
+}
+
+fn child_extract(exe: &Path, archive: &Path) -> Result<String, String> {
+    let mut cmd = Command::new(exe);
+    cmd.args(["child", "extract"]).arg(archive);
+    let o = run_cmd(cmd, Duration::from_secs(300)).map_err(|e| format!("cannot run {}: {}", exe.display(), e))?;
+    if o.timed_out {
+        return Err("extract child timed out".into());
+    }
+    if !o.ok() {
+        return Ok(format!("died: {}", o.describe()));
+    }
+    Ok(String::from_utf8_lossy(&o.stdout).trim().to_string())
+}
+
+pub fn check_archive(ctx: &Ctx, case: &ArcCase) -> Report {
+    let c = &case.collection;
+    let dir = ctx.scratch("c18");
+    let inputs = match fasta::write_inputs(c, &dir.path.join("in")) {
+        Ok(i) => i,
+        Err(e) => return Report::inconclusive(format!("harness: cannot write inputs: {}", e)),
+    };
+    let token_rounds = c.params.single_file && c.n_contigs() as u32 >= c.params.pack;
+    let mut rep = Report::pass(false)
+        .label(if c.params.single_file { "mode:single-file" } else { "mode:multi-file" })
+        .label_if(token_rounds, "single-file>=pack-cardinality-contigs");
+    let exe = std::env::current_exe().expect("exe");
+    let mut outs = Vec::new();
+    for (which, bin) in [("release", &ctx.ragc), ("checked", &ctx.ragc_checked)] {
+        let a = dir.file(&format!("{}.agc", which));
+        let o = match pipeline::cli_create(bin, &c.params, &a, &inputs) {
+            Ok(o) => o,
+            Err(e) => return Report::inconclusive(format!("cannot run ragc ({}): {}", which, e)),
+        };
+        if o.timed_out {
+            return Report::inconclusive(format!("ragc create ({}) timed out", which));
+        }
+        let err = String::from_utf8_lossy(&o.stderr).to_string();
+        if overflow_panic(&err) {
+            let line = err.lines().find(|l| overflow_panic(l)).unwrap_or("").to_string();
+            let at = err.lines().find(|l| l.contains("panicked at")).unwrap_or("").to_string();
+            return Report { verdict: Verdict::Fail(format!("ragc create ({} build) aborts with an arithmetic-overflow panic: {} {}", which, at.trim(), line.trim())), ..rep };
+        }
+        outs.push((which, a, o));
+    }
+    let (rel, chk) = (&outs[0], &outs[1]);
+    if rel.2.ok() != chk.2.ok() {
+        return Report { verdict: Verdict::Fail(format!("create: release build {}, overflow-checked build {}", rel.2.describe(), chk.2.describe())), ..rep };
+    }
+    if !rel.2.ok() {
+        return rep.label("create-failed-in-both");
+    }
+    // extraction: both archives, read by both builds of the reader
+    let mut sums = Vec::new();
+    for (which_a, a, _) in &outs {
+        for (which_r, r) in [("release", exe.as_path()), ("checked", ctx.vcheck_checked.as_path())] {
+            match child_extract(r, a) {
+                Ok(s) => {
+                    if overflow_panic(&s) {
+                        return Report { verdict: Verdict::Fail(format!("extraction of the {} archive with the {} reader: {}", which_a, which_r, s)), ..rep };
+                    }
+                    sums.push((format!("{} archive / {} reader", which_a, which_r), s));
+                }
+                Err(e) => return Report::inconclusive(e),
+            }
+        }
+    }
+    if let Some(bad) = sums.iter().find(|s| s.1 != sums[0].1) {
+        return Report { verdict: Verdict::Fail(format!("extraction differs between build profiles: {} -> {}, {} -> {}", sums[0].0, sums[0].1, bad.0, bad.1)), ..rep };
+    }
+    if !sums[0].1.starts_with("ok ") {
+        return Report { verdict: Verdict::Fail(format!("created archive cannot be extracted: {}", sums[0].1)), ..rep };
+    }
+    // byte identity where creation is deterministic anyway (multi-file, token-free single-file)
+    if !token_rounds {
+        let (b1, b2) = (std::fs::read(&rel.1).unwrap_or_default(), std::fs::read(&chk.1).unwrap_or_default());
+        if b1 != b2 {
+            // blame the profile only if the release build agrees with itself
+            let a3 = dir.file("release2.agc");
+            match pipeline::cli_create(&ctx.ragc, &c.params, &a3, &inputs) {
+                Ok(o) if o.ok() => {
+                    if std::fs::read(&a3).unwrap_or_default() == b1 {
+                        return Report { verdict: Verdict::Fail(format!("archives differ between the release build (sha256 {}) and the overflow-checked build (sha256 {}) while two release runs agree", &sha256_hex(&b1)[..12], &sha256_hex(&b2)[..12])), ..rep };
+                    }
+                    rep = rep.label("not-byte-stable-within-one-build(C04)");
+                }
+                _ => return Report::inconclusive("second release create failed".to_string()),
+            }
+        } else {
+            rep = rep.label("byte-identical-across-profiles");
+        }
+    }
+    rep.nontrivial = token_rounds || c.samples.len() >= 2;
+    rep
+}
+
+fn arc_strategy() -> impl Strategy<Value = ArcCase> {
+    // biased to one PanSN file with at least pack-cardinality contigs (sync-token rounds)
+    let many_contigs = (gen::collection_strategy(GenCfg { max_contig: 1500, max_samples: 4, many_samples_pct: 30, single_file: Some(true), vary_presentation: false }), 1u32..9).prop_map(|(mut c, pack)| {
+        c.params.pack = pack;
+        ArcCase { collection: c }
+    });
+    let general = gen::collection_strategy(GenCfg { max_contig: 4000, max_samples: 4, many_samples_pct: 3, single_file: None, vary_presentation: false }).prop_map(|collection| ArcCase { collection });
+    prop_oneof![3 => many_contigs, 2 => general]
+}
+
+pub fn run(ctx: &Ctx, stats: &mut Stats) {
+    if !ctx.vcheck_checked.exists() || !ctx.ragc_checked.exists() {
+        stats.inconclusive.push("overflow-checked builds are missing".into());
+        return;
+    }
+    let c2 = ctx.clone();
+    let n = ctx.tier.pick(160, 4_000);
+    run_prop(ctx, stats, "archives", n, arc_strategy(), &move |c: &ArcCase| check_archive(&c2, c));
+    // LZ cost estimation in batches of 400 pairs
+    let c3 = ctx.clone();
+    let nb = ctx.tier.pick(256, 8_000);
+    let max_len = ctx.tier.pick(2_000, 20_000);
+    let batch = prop::collection::vec(crate::props::c09::strat(max_len), 400..401).prop_map(|cases| LzBatch { cases: cases.into_iter().filter(|c| !c.target.is_empty()).collect() });
+    run_prop(ctx, stats, "lz-cost", nb, batch, &move |b: &LzBatch| check_lz(&c3, b));
+    stats.add_extra_count("lz_pairs_compared", stats.stages.get("lz-cost").map(|s| s.evaluations * 400).unwrap_or(0));
+}
+
+pub fn replay(ctx: &Ctx, stage: &str, case: &Value) -> Report {
+    if stage == "lz-cost" {
+        return match from_case::<LzBatch>(case) {
+            Ok(c) => check_lz(ctx, &c),
+            Err(e) => Report::fail(e),
+        };
+    }
+    match from_case::<ArcCase>(case) {
+        Ok(c) => check_archive(ctx, &c),
+        Err(e) => Report::fail(e),
+    }
+}
+
+pub const INFO: PropInfo = PropInfo {
+    id: "C18",
+    level: "exploration",
+    rule: "differential testing across two builds of the same tree: release and release+overflow-checks (CLI and harness both built twice). (1) archives: generated collections, 3/5 of them one PanSN file with at least -l contigs (-l 1..8, so many sync-token rounds; a third with > 50 samples), the rest the general C01 space; created by both ragc builds, both archives extracted by both reader builds; oracle: same exit class, all four extractions equal and ok, byte-identical archives wherever creation is deterministic anyway (multi-file, single-file below -l contigs; a difference is blamed on the profile only when two release runs agree), and no 'attempt to ... with overflow' panic anywhere. (2) LZ cost: batches of 400 (reference, target, min match) pairs from the C09 generators through estimate (bound max and 8), get_coding_cost_vector (prefix and suffix) and encode in both builds; oracle: identical results, no overflow panic. (3) the truncated-archive space runs in both builds under C14. Non-trivial archive case = one PanSN file with >= -l contigs, or >= 2 samples; distinct = distinct case.",
+    assumptions: &["debug assertions are off in both builds, so integer overflow checking is the only difference", "C14 carries the prefix space for both profiles"],
+    needs_cli: true,
+    needs_checked: true,
+    max_shards: 16,
+    shrink_iters: 30,
+    watchdog_s: (2400, 14400),
+    run,
+    replay,
+};
